@@ -457,6 +457,7 @@ type Task struct {
 	decls     []string
 	declared  map[string]string
 	asserts   []string
+	assertTag map[int]*assertTag // assumptions that come from a callee contract's ensures clause (index into asserts)
 	obls      []*Obligation
 	nfresh    int
 	modelSyms []string
@@ -1050,3 +1051,9 @@ func posStr(fset *token.FileSet, p token.Pos) string {
 }
 
 var _ = ast.Inspect
+
+// assertTag: which clause of which callee contract an assumption of the caller comes from (dependency closure of a check).
+type assertTag struct {
+	con *FuncContract
+	src string
+}
